@@ -10,7 +10,7 @@ URLS = ["http://t.example/announce", "udp://tracker.example:6969", "https://a.b/
         "http://x.y/a b", "http://ü.example/é", "http://h/%41+%2B#frag", "wss://t/~u=1",
         "http://tr/𝄞", "ftp://ftp.example.site/content", "http://w/one"]
 WORDS = ["hello", "a comment with spaces", "x=y&z", "100%", "émoji 😀", "#tag", "plus+plus",
-         "src", "PTP", "tracker-x", "~", "q?"]
+         "src", "PTP", "tracker-x", "~", "q?", " padded ", "  ", "tail ", "\tt"]
 
 
 def options(rng, none_p=0.35):
@@ -93,6 +93,11 @@ def make_meta(rng, box, version=None, via_cli=None, opts=None, single=None, tag=
         if os.makedirs(os.path.join(box, tag + "-p"), exist_ok=True) is None else None
     opts = options(rng) if opts is None else opts
     out = os.path.join(box, tag + ".torrent")
+    if rng.random() < 0.3:
+        # the output path already holds an (older, longer) metafile: it must be replaced whole
+        with open(out, "wb") as fd:
+            fd.write(b"d8:announce9:http://x/4:infod4:name3:old12:piece lengthi16384ee" +
+                     b"7:comment" + b"2000:" + b"x" * 2000 + b"e" + b"trailing junk" * 40)
     via_cli = rng.random() < 0.4 if via_cli is None else via_cli
     if via_cli:
         argv = ["create", "--prog", "0", "--piece-length", str(pl), "--meta-version",
